@@ -4,8 +4,8 @@ from gcv import typestate, protocol, spec_protocol
 from gcv.props import common
 
 
-def run(chk, tier):
-    prog, T = typestate.engine("default")
+def run_config(chk, tier, cfgname):
+    prog, T = typestate.engine(cfgname)
     chk.explain("C08: Context::do_collection, PhaseGuard, the derived comparisons on Phase/Stop/RunUntil and the "
                 "six Arena/MarkedArena collection methods are interpreted from their MIR over every reachable "
                 "abstract entry state (phase x pending-mark-work x sweep cursor x list emptiness) with the debt "
@@ -56,3 +56,17 @@ def run(chk, tier):
     common.phase_writers(chk, prog)
     # run_until / stop constants at the call sites (floor 6)
     common.collection_call_sites(chk, prog)
+
+
+def run(chk, tier):
+    cfgs = typestate.configs(tier)
+    chk.extra["feature_configs"] = cfgs
+    for c in cfgs:
+        chk.cfg = c
+        n_expl = len(chk.explanation)
+        nd = len(chk.not_decided)
+        run_config(chk, tier, c)
+        if c != cfgs[0]:
+            del chk.explanation[n_expl:]
+            del chk.not_decided[nd:]
+    chk.cfg = None
